@@ -116,7 +116,7 @@ Definition nf_post (F : nat) (st : pst) (b : buf) (n : net) (fi : fin) (res : re
   | (r', n', NfEnd (EndBad e)) =>
       ref_from F st s (sfin n fi) = ([], EndBad e) /\
       exists b', r' = rd init b' /\ wf b' /\ okl (b_pend b') /\ Forall okl n' /\ length (b_pend b' ++ sbytes n') + cons_need st <= length s /\
-        (exists consumed, s = consumed ++ b_pend b' ++ sbytes n')
+        (exists consumed, s = consumed ++ b_pend b' ++ sbytes n') /\ sfin n' fi = sfin n fi
   | (_, _, NfEnd e) => e <> EndPanic /\ e <> EndOutOfFuel /\ ref_from F st s (sfin n fi) = ([], e)
   end.
 
@@ -182,7 +182,7 @@ Proof using All.
           - destruct IH as (b3 & -> & Hwf3 & Hok3 & Hokn3 & Hsf3 & Hr3 & Hl3 & (cs & Hcs)). exists b3. repeat split; try assumption; [lia|].
             exists (firstn k (b_pend b) ++ cs). rewrite <- app_assoc, <- Hcs, <- Heq. cbn [consume b_pend]. now rewrite !app_assoc, firstn_skipn.
           - destruct e; try exact IH.
-            destruct IH as (Hr3 & b3 & -> & Hwf3 & Hok3 & Hokn3 & Hl3 & (cs & Hcs)). split; [exact Hr3|]. exists b3. repeat split; try assumption; [lia|].
+            destruct IH as (Hr3 & b3 & -> & Hwf3 & Hok3 & Hokn3 & Hl3 & (cs & Hcs) & Hsf3). split; [exact Hr3|]. exists b3. repeat split; try assumption; [lia|].
             exists (firstn k (b_pend b) ++ cs). rewrite <- app_assoc, <- Hcs, <- Heq. cbn [consume b_pend]. now rewrite !app_assoc, firstn_skipn. }
         destruct (skipn j (x :: c)) as [|y rest] eqn:Erest.
         -- apply Hgoal; [reflexivity|reflexivity|exact Hokn'|]. cbn [length] in *. lia.
@@ -194,6 +194,7 @@ Proof using All.
     unfold nf_post. split; [apply Href; exact HF|]. exists (consume k b). rewrite H_reset. split; [reflexivity|].
     split; [now apply consume_wf|]. split; [apply Hokc|]. split; [exact Hokn|].
     split; [rewrite !app_length, consume_pend_len by assumption; unfold buf_len in Hk; lia|].
+    split; [|reflexivity].
     exists (firstn k (b_pend b)). cbn [consume b_pend]. now rewrite app_assoc, firstn_skipn.
   - exfalso. exact (H_panic _ _ _ _ Hwf Hok Hst Ep).
 Qed.
@@ -616,5 +617,114 @@ Corollary run_st_represents : forall r t n fi G F,
   buf_len (r_buf r) + length (sbytes n) + 1 < G -> length (t ++ sbytes n) < F ->
   snd (run_reader_st G r n fi) = liftr (rf F (t ++ sbytes n) (sfin n fi)).
 Proof using All. intros. rewrite run_reader_st_snd. now apply run_represents. Qed.
+
+
+(* ================================================================================================
+   Polling again after a framing error (resume = true): the RTU server keeps ONE reader across port
+   re-opens. `rafter F s` = what the Spec says is left of the stream after its first framing error;
+   `after_from` its state-indexed version. The run in resume mode is the Spec applied session after
+   session, each from a clean parser, on what is left.
+   ================================================================================================ *)
+Variable rafter : nat -> list N -> list N.
+Variable after_from : nat -> pst -> list N -> list N.
+Hypothesis HA_init : forall F s, after_from F init s = rafter F s.
+Hypothesis HA_none : forall st b st' b', wf b -> okl (b_pend b) -> st_ok st -> pp st b = (st', b', Ok None) ->
+  forall fut F, length (b_pend b ++ fut) < F -> after_from F st (b_pend b ++ fut) = after_from F st' (b_pend b' ++ fut).
+Hypothesis HA_some : forall st b st' b' f, wf b -> okl (b_pend b) -> st_ok st -> pp st b = (st', b', Ok (Some f)) ->
+  forall fut F, length (b_pend b ++ fut) < F -> after_from F st (b_pend b ++ fut) = rafter F (b_pend b' ++ fut).
+Hypothesis HA_err : forall st b st' b' e, wf b -> okl (b_pend b) -> st_ok st -> pp st b = (st', b', Err e) ->
+  forall fut F, length (b_pend b ++ fut) < F -> after_from F st (b_pend b ++ fut) = b_pend b' ++ fut.
+
+Theorem nf_after : forall fuel st b n fi F,
+  wf b -> okl (b_pend b) -> Forall okl n -> st_ok st -> length (concat n) < fuel -> length (b_pend b ++ sbytes n) < F ->
+  match next_frame fuel (rd st b) n fi with
+  | (r', n', NfFrame _) => after_from F st (b_pend b ++ sbytes n) = rafter F (b_pend (r_buf r') ++ sbytes n')
+  | (r', n', NfEnd (EndBad _)) => after_from F st (b_pend b ++ sbytes n) = b_pend (r_buf r') ++ sbytes n'
+  | _ => True
+  end.
+Proof using All.
+  induction fuel as [|fuel IH]; intros st b n fi F Hwf Hok Hokn Hst Hfuel HF; [lia|].
+  assert (Hokc : forall k, okl (b_pend (consume k b))) by (intros k; cbn [consume b_pend]; now apply okl_skipn).
+  cbn [next_frame rd r_parser r_buf]. rewrite H_mk. destruct (pp st b) as [[st' b'] r] eqn:Ep.
+  destruct r as [[f|]|e|]; cbn [r_buf].
+  - exact (HA_some _ _ _ _ _ Hwf Hok Hst Ep _ F HF).
+  - destruct (H_none _ _ _ _ Hwf Hok Hst Ep) as (Hst' & Hstuck & (k & -> & Hk & Hck) & _).
+    pose proof (HA_none _ _ _ _ Hwf Hok Hst Ep) as Ha.
+    assert (Hwf' := consume_wf _ _ Hwf Hk).
+    assert (Hlen' : length (b_pend (consume k b)) = length (b_pend b) - k) by now apply consume_pend_len.
+    assert (Hcap : buf_len (consume k b) < cap) by (specialize (H_need_cap _ Hst'); lia).
+    destruct n as [|c n'].
+    + destruct (read_some (consume k b) []) as [b2 x]. destruct fi; exact I.
+    + destruct c as [|x c].
+      * destruct (read_some_nil _ Hwf') as (b2 & -> & _ & _). exact I.
+      * destruct (read_some_ok (consume k b) (x :: c) Hwf' Hcap ltac:(discriminate)) as (j & b'' & Hrs & Hj & Hp'' & Hwf'').
+        rewrite Hrs.
+        assert (Hsplit : forall tl, b_pend (consume k b) ++ (x :: c) ++ tl = b_pend b'' ++ skipn j (x :: c) ++ tl).
+        { intros tl. rewrite Hp'', <- !app_assoc. f_equal. rewrite app_assoc, firstn_skipn. reflexivity. }
+        assert (Hrest : length (skipn j (x :: c)) = length (x :: c) - j) by apply skipn_length.
+        cbn [concat] in Hfuel. rewrite app_length in Hfuel.
+        assert (Hokx : okl (x :: c) /\ Forall okl n') by (inversion Hokn; subst; split; assumption). destruct Hokx as [Hokx Hokn'].
+        assert (Hok'' : okl (b_pend b'')) by (rewrite Hp''; apply okl_app; [apply Hokc|now apply okl_firstn]).
+        assert (Hgoal : forall n1, sbytes n1 = skipn j (x :: c) ++ sbytes n' -> Forall okl n1 -> length (concat n1) < fuel ->
+          match next_frame fuel (rd st' b'') n1 fi with
+          | (r', n2, NfFrame _) => after_from F st (b_pend b ++ sbytes ((x :: c) :: n')) = rafter F (b_pend (r_buf r') ++ sbytes n2)
+          | (r', n2, NfEnd (EndBad _)) => after_from F st (b_pend b ++ sbytes ((x :: c) :: n')) = b_pend (r_buf r') ++ sbytes n2
+          | _ => True
+          end).
+        { intros n1 Hs1 Hok1 Hfu.
+          assert (Heq : b_pend (consume k b) ++ sbytes ((x :: c) :: n') = b_pend b'' ++ sbytes n1).
+          { change (sbytes ((x :: c) :: n')) with ((x :: c) ++ sbytes n'). rewrite Hs1. apply Hsplit. }
+          assert (HF' : length (b_pend b'' ++ sbytes n1) < F) by (rewrite <- Heq, app_length; rewrite app_length in HF; lia).
+          specialize (IH st' b'' n1 fi F Hwf'' Hok'' Hok1 Hst' Hfu HF').
+          rewrite (Ha _ F HF), Heq. exact IH. }
+        destruct (skipn j (x :: c)) as [|y rest] eqn:Erest.
+        -- apply Hgoal; [reflexivity|assumption|]. cbn [length] in *. lia.
+        -- apply Hgoal; [reflexivity| |].
+           ++ constructor; [rewrite <- Erest; now apply okl_skipn|assumption].
+           ++ cbn [concat]. rewrite app_length. cbn [length] in *. lia.
+  - exact (HA_err _ _ _ _ _ Hwf Hok Hst Ep _ F HF).
+  - exact I.
+Qed.
+
+(* the Spec's view of a whole life: a session, its framing error, a clean start on what is left, ... *)
+Fixpoint gres (fuel : nat) (F : nat) (s : list N) (fi : fin) : list item * ending :=
+  match fuel with
+  | O => ([], EndOutOfFuel)
+  | S fuel =>
+      let '(fs, e) := rf F s fi in
+      match e with
+      | EndBad err => let '(l, e') := gres fuel F (rafter F s) fi in (map IFrame fs ++ IErr err :: l, e')
+      | _ => (map IFrame fs, e)
+      end
+  end.
+Hypothesis HA_len : forall F s fi fs e, length s < F -> rf F s fi = (fs, EndBad e) -> length (rafter F s) < length s.
+
+Lemma gres_fuel : forall G1 G2 F s fi, length s < F -> length s < G1 -> length s < G2 -> gres G1 F s fi = gres G2 F s fi.
+Proof using All.
+  induction G1 as [|G1 IH]; intros G2 F s fi HF H1 H2; [lia|]. destruct G2 as [|G2]; [lia|]. cbn [gres].
+  destruct (rf F s fi) as [fs e] eqn:E. destruct e; try reflexivity.
+  pose proof (HA_len F s fi fs e HF E) as Hl. rewrite (IH G2 F (rafter F s) fi); [reflexivity|lia|lia|lia].
+Qed.
+
+Theorem run_resume_ref : forall G b n fi F,
+  wf b -> okl (b_pend b) -> Forall okl n ->
+  length (b_pend b ++ sbytes n) < G -> length (b_pend b ++ sbytes n) < F ->
+  run_reader G true (rd init b) n fi = gres G F (b_pend b ++ sbytes n) (sfin n fi).
+Proof using All.
+  induction G as [|G IH]; intros b n fi F Hwf Hok Hokn HG HF; [lia|]. cbn [run_reader].
+  pose proof (nf_ref (nf_fuel n) init b n fi F Hwf Hok Hokn H_init_ok ltac:(unfold nf_fuel; lia) HF) as Hnf.
+  pose proof (nf_after (nf_fuel n) init b n fi F Hwf Hok Hokn H_init_ok ltac:(unfold nf_fuel; lia) HF) as Haf.
+  unfold nf_post in Hnf. cbv zeta in Hnf. rewrite H_init in Hnf. rewrite HA_init in Haf. pose proof H_cons_init as Hci.
+  destruct (next_frame (nf_fuel n) (rd init b) n fi) as [[r' n'] res]. destruct res as [f|e].
+  - destruct Hnf as (b' & -> & Hwf' & Hok' & Hokn' & Hsf & Hr & Hl & _). cbn [rd r_buf] in Haf.
+    rewrite (IH b' n' fi F Hwf' Hok' Hokn') by lia. rewrite Hsf.
+    rewrite (gres_fuel G (S G) F (b_pend b' ++ sbytes n') (sfin n fi)) by lia.
+    cbn [gres]. rewrite Hr, Haf. destruct (rf F (b_pend b' ++ sbytes n') (sfin n fi)) as [fs e]. cbn [consf map app].
+    destruct e; try reflexivity. destruct (gres G F (rafter F (b_pend b' ++ sbytes n')) (sfin n fi)) as [l e']. reflexivity.
+  - destruct e as [e| | | |]; try (destruct Hnf as (_ & _ & Hr); cbn [gres]; rewrite Hr; reflexivity).
+    destruct Hnf as (Hr & b' & -> & Hwf' & Hok' & Hokn' & Hl & _ & Hsf). cbn [rd r_buf] in Haf.
+    rewrite (IH b' n' fi F Hwf' Hok' Hokn') by lia. rewrite Hsf.
+    cbn [gres]. rewrite Hr, Haf. cbn [map app]. destruct (gres G F (b_pend b' ++ sbytes n') (sfin n fi)) as [l e']. reflexivity.
+Qed.
 
 End Generic.
